@@ -142,11 +142,10 @@ class Rodrigues(NeoEuler):
         --------
         Quaternion.to_rodrigues
         """
-        a = rotation.a.astype(np.float64)
-        with np.errstate(divide="ignore", invalid="ignore"):
-            data = np.stack((rotation.b / a, rotation.c / a, rotation.d / a), axis=-1)
-        data[np.isnan(data)] = 0
-        ro = cls(data)
+        # The axis times tan(angle / 2), which stays finite (and keeps
+        # the direction of the axis) for rotations by 180 degrees,
+        # where the components divided by the scalar part are infinite
+        ro = cls(rotation.to_rodrigues().data)
         return ro
 
 
